@@ -239,7 +239,7 @@ func run(c Case) vt.Verdict {
 	f := obs.Read(file, obs.Options{SelSeeds: []uint64{11, 22, 33, 44}})
 	ps := hist.Compare(ex.M, f, hist.Opts{})
 	for _, p := range ps {
-		if staleRisk && p.Path == "/r" && (p.Kind == "read-error" || p.Kind == "read-values" || p.Kind == "strings-error" || p.Kind == "strings-values" || p.Kind == "partial-read-values") {
+		if staleRisk && p.Path == "/r" && staleExplains(p, ex.M.Resolve("/r"), f.Datasets["/r"]) {
 			return vt.KnownOr(kfShrink, "%s", p)
 		}
 		return vt.Bad("%d problem(s) after reopen, first: %s (spec %+v)", len(ps), p, c.D)
@@ -261,6 +261,46 @@ func run(c Case) vt.Verdict {
 		}
 	}
 	return vt.Pass()
+}
+
+// staleExplains: the problem is what chunks left in the index by a shrink (the open finding) produce - the reader refuses a
+// chunk that lies beyond the extent, or values from before the shrink show up where the model has zero fill. A wrong value
+// where the model holds retained or rewritten data is not explained by it.
+func staleExplains(p hist.Problem, o *hist.Obj, d *obs.Dataset) bool {
+	if o == nil || d == nil {
+		return false
+	}
+	switch p.Kind {
+	case "read-error", "strings-error":
+		return strings.Contains(p.Detail, "beyond the dataset extent") || strings.Contains(p.Detail, "chunk data truncated")
+	case "read-values", "partial-read-values":
+		want, ok := o.Spec.ExpectedRead(o.Raw)
+		if !ok || d.ReadErr != "" || len(d.Read) != len(want) {
+			return false
+		}
+		stale := 0
+		for i := range want {
+			if d.Read[i] != want[i] {
+				if want[i] != 0 {
+					return false
+				}
+				stale++
+			}
+		}
+		return stale > 0 // a partial read that disagrees while the full read is right has another cause
+	case "strings-values":
+		want, ok := o.Spec.ExpectedStrings(o.Raw)
+		if !ok || d.StringsErr != "" || len(d.Strings) != len(want) {
+			return false
+		}
+		for i := range want {
+			if d.Strings[i] != want[i] && want[i] != "" {
+				return false
+			}
+		}
+		return true
+	}
+	return false
 }
 
 func TestProp(t *testing.T) {
